@@ -161,6 +161,9 @@ bool QXmppMamManager::handleStanza(const QDomElement &element)
             }
             return true;
         }
+    } else if (const auto type = element.attribute(u"type"_s); type == u"get" || type == u"set") {
+        // requests are not handled by this manager: leave them to the client's fallback
+        return false;
     } else if (QXmppMamResultIq::isMamResultIq(element)) {
         QXmppMamResultIq result;
         result.parse(element);
